@@ -1152,6 +1152,7 @@ int
 tp_shutdown_wait(tp_p tp) {
 	int error;
 	size_t err_cnt = 0;
+	pthread_t pt_id, pt_zero;
 	/* 1 sec = 1000000000 nanoseconds. */
 	struct timespec rqts = { .tv_sec = 0, .tv_nsec = 100000000 };
 
@@ -1162,11 +1163,22 @@ tp_shutdown_wait(tp_p tp) {
 	if (0 != tp_thread_is_tp_thr(tp, NULL))
 		return (EDEADLK);
 
+	memset(&pt_zero, 0x00, sizeof(pthread_t));
 	for (size_t i = 0; i < tp->s.threads_max; i ++) {
-		if (TP_THREAD_STATE_STOP == tp->threads[i].state)
+		/* Threads created by tp_threads_create() keep pt_id until
+		 * joined here, even if they have allready left the loop. */
+		pt_id = tp->threads[i].pt_id;
+		if (0 == memcmp(&pt_id, &pt_zero, sizeof(pthread_t))) {
+			/* Never started, attached by tp_thread_attach_first()
+			 * or joined by other caller: only wait for loop exit. */
+			while (TP_THREAD_STATE_STOP != tp->threads[i].state) {
+				nanosleep(&rqts, NULL); /* Ignore early wakeup and errors. */
+			}
 			continue;
+		}
+		memset(&tp->threads[i].pt_id, 0x00, sizeof(pthread_t));
 		LCB_VP(16, &tp->threads[i]);
-		error = pthread_join(tp->threads[i].pt_id, NULL);
+		error = pthread_join(pt_id, NULL);
 		switch (error) {
 		case 0: /* No error. */
 			break;
@@ -1175,7 +1187,6 @@ tp_shutdown_wait(tp_p tp) {
 		case EOPNOTSUPP: /* Probably other thread also call this right now. */
 			/* FreeBSD specific. */
 		default:
-			tp->threads[i].state = TP_THREAD_STATE_STOP;
 			err_cnt ++;
 			break;
 		}
@@ -1270,7 +1281,8 @@ tp_thread_attach_first(tp_p tp) {
 		return (ESPIPE);
 
 	tpt->state = TP_THREAD_STATE_STARTING;
-	tpt->pt_id = pthread_self();
+	/* Foreign thread: tp_shutdown_wait() must not join it. */
+	memset(&tpt->pt_id, 0x00, sizeof(pthread_t));
 
 	tp_thread_proc(tpt);
 
@@ -1348,10 +1360,11 @@ tp_thread_proc(void *data) {
 	syslog(LOG_INFO, "%s thread exited...", thr_name);
 	pthread_setspecific(tp_tls_key_tpt, NULL);
 	pthread_self_name_set(NULL);
-	memset(&tpt->pt_id, 0x00, sizeof(pthread_t));
-	LCB_VP(15, tpt);
-	tpt->state = TP_THREAD_STATE_STOP; /* Reset state on exit. */
 	tpt->tp->threads_cnt --;
+	LCB_VP(15, tpt);
+	/* pt_id is reset by tp_shutdown_wait() after pthread_join().
+	 * Must be last: tp can be destroyed right after this. */
+	tpt->state = TP_THREAD_STATE_STOP; /* Reset state on exit. */
 
 	return (NULL);
 }
